@@ -61,7 +61,7 @@ def run(ctx):
         if it % 40 == 0:
             sf.set_semantic_constraints(rng.choice(["default", "hypervalent", "octet_rule", {"?": 6, "C": 4, "N": 3}, {"?": 1}, {"?": 12}]))
             table = sf.get_semantic_constraints()
-        n = rng.randint(1, 16)
+        n = rng.randint(1, 16) if it % 50 else rng.choice([200, 800, 2500])      # archived data sets hold long strings too
         toks = []
         for _ in range(n):
             y = rng.random()
